@@ -1,6 +1,7 @@
 #!/bin/bash
 # usage: confirm_seeded.sh <dir with patch.diff demo.py>   -> prints tests/demo outcomes with and without the patch (in /tmp/wt_verify)
 D=$(realpath $1); W=/tmp/wt_verify
+[ -d $W ] || git -C /repo worktree add -q --detach $W HEAD   # scratch worktree, removed again with: git -C /repo worktree remove --force $W
 cd $W && git checkout -q -- . && git clean -fdq
 PYTHONPATH=$W/src /venv/bin/python $D/demo.py >/dev/null 2>&1; echo "demo clean exit=$?"
 git apply --check $D/patch.diff || { echo "PATCH DOES NOT APPLY"; exit 1; }
